@@ -1261,7 +1261,8 @@ class RouteBuilderValidator(Validator[list[Any]]):
             attributes.add(value)
         elif target == ActionTarget.NEXTHOP_ATTRIBUTE:
             ip, attribute = value
-            if ip:
+            # IP.NoNextHop is not false: it is what a command without next-hop ("redirect 65000:1") gives
+            if ip and ip is not IP.NoNextHop:
                 settings.nexthop = ip
             if attribute:
                 attributes.add(attribute)
